@@ -5,7 +5,7 @@ from ..cases import Space, cost_py, num_eq
 from pydcop.dcop import relations as R
 from pydcop.utils.expressionfunction import ExpressionFunction
 
-VALS = {"x": ["a", "b"], "y": [0, 1], "z": [2, 5, 9]}
+VALS = {"x": ["a", "b"], "y": [0, 1], "z": [2, 5, 9], "w": ["q", "p"]}
 
 
 def nested(sp, rel, order, prefix=None):
